@@ -63,6 +63,15 @@ func RandomInteger(r *mon.Rng) string {
 	return "12345678901234567890"
 }
 
+// RandomIntegerDoc: an integer for a DOCUMENT; one time in eight spelled with an exponent (and
+// possibly a decimal point) - the schema notation refuses exponents, documents do not.
+func RandomIntegerDoc(r *mon.Rng) string {
+	if r.Chance(1, 8) {
+		return mon.Pick(r, []string{"1.5E1", "2.0E0", "1.25E+2", "150e-1", "1e2", "12E0", "-3.0E1", "1.0e+1", "0.5E1", "-12.50E+1", "7E+0", "100E-2"})
+	}
+	return RandomInteger(r)
+}
+
 func RandomFloat(r *mon.Rng) string {
 	if r.Chance(1, 16) {
 		return mon.Pick(r, []string{"0.0", "-0.0", "-0.00", "0.50", "-0.5"})
@@ -179,7 +188,7 @@ func (d *Docs) conformBuiltin(name string, example string) *model.Val {
 	case "string":
 		return model.VString(RandomString(r))
 	case "integer":
-		return model.VNumber(RandomInteger(r))
+		return model.VNumber(RandomIntegerDoc(r))
 	case "float", "decimal":
 		return model.VNumber(RandomFloat(r))
 	case "boolean":
@@ -418,7 +427,7 @@ func (d *Docs) scalarWithin(n *model.Node) *model.Val {
 			case model.KString:
 				c = model.VString(RandomString(r))
 			case model.KInteger:
-				c = model.VNumber(RandomInteger(r))
+				c = model.VNumber(RandomIntegerDoc(r))
 			case model.KFloat:
 				c = model.VNumber(RandomFloat(r))
 			default:
@@ -435,10 +444,10 @@ func (d *Docs) scalarWithin(n *model.Node) *model.Val {
 	case model.KString:
 		return model.VString(RandomString(r))
 	case model.KInteger:
-		return model.VNumber(RandomInteger(r))
+		return model.VNumber(RandomIntegerDoc(r))
 	case model.KFloat:
 		if r.Chance(1, 3) {
-			return model.VNumber(RandomInteger(r)) // integer where the example is float
+			return model.VNumber(RandomIntegerDoc(r)) // integer where the example is float
 		}
 		if r.Chance(1, 5) {
 			return model.VNumber(mon.Pick(r, []string{"1e2", "15e-1", "1.50", "2.5E-1", "-0.0"}))
